@@ -758,6 +758,15 @@ end
 
 def rejectStr (e : PlanErr) : String := s!"reject {fmtPlanErr e} prepull=0"
 
+/-- The class of a rejection is read off the library's error *text* and says which check fired first. Neither is something
+C10 / C11 speak about (an ill-typed query must be rejected before any row is pulled — by whichever check): when the model
+and the observation both reject with the same `prepull`, the observation itself is reported as the model's text, so that
+a reworded message or two independent checks in another order do not break the correspondence. -/
+def rejectProj (model obs : String) : String :=
+  match words model, words obs with
+  | ["reject", _, pm], ["reject", _, po] => if pm == po then obs else model
+  | _, _ => model
+
 def goTypeName : Option V → String
   | none => "a Go type outside the five value types"
   | some .nil => "nil"
